@@ -148,6 +148,35 @@ def canonFieldsLoose (fs : List Field) : List Field :=
     sortBy (fun a b => strLt a.name b.name || (a.name == b.name && strLt a.value b.value))
       (fs.dropWhile Field.isPseudo)
 
+/-! ## SETTINGS_MAX_HEADER_LIST_SIZE -/
+
+/-- `hpack.HeaderField.Size()` summed: the RFC 9113 header list size (name + value + 32 per field). -/
+def headerListSize : List Field → Nat
+  | [] => 0
+  | f :: fs => f.name.length + f.value.length + 32 + headerListSize fs
+
+/-- the size accounting of the emit callback of `Framer.readMetaFrame`
+(`if size > remainSize { truncated } ; remainSize -= size`): the remaining budget, or `none` once
+the list is truncated (the server then answers 431, the Transport fails the response). -/
+def sizeLoop (remain : Nat) : List Field → Option Nat
+  | [] => some remain
+  | f :: fs =>
+    if f.name.length + f.value.length + 32 > remain then none
+    else sizeLoop (remain - (f.name.length + f.value.length + 32)) fs
+
+/-- `adjustHTTP1MaxHeaderSize` constants and net/http's `DefaultMaxHeaderBytes`. -/
+def perFieldOverhead : Nat := 32
+def typicalHeaders : Nat := 10
+def defaultMaxHeaderBytes : Nat := 1048576
+
+/-- `serverConn.maxHeaderListSize()`: what the server advertises and enforces. -/
+def serverHeaderListLimit (maxHeaderBytes : Nat) : Nat :=
+  (if maxHeaderBytes = 0 then defaultMaxHeaderBytes else maxHeaderBytes) + typicalHeaders * perFieldOverhead
+
+/-- `Transport.maxHeaderListSize()` (no `MaxResponseHeaderBytes`; values below 2^32-1). -/
+def clientHeaderListLimit (maxHeaderListSize : Nat) : Nat :=
+  if maxHeaderListSize = 0 then 10485760 else maxHeaderListSize
+
 /-! ## Request: client side -/
 
 structure Req where
@@ -228,6 +257,11 @@ def reqFields (r : Req) : List Field :=
   ++ (if shouldSendCL r.method r.actualCL then [⟨str "content-length", itoa r.actualCL.toNat⟩] else [])
   ++ (if addGzip r then [⟨str "accept-encoding", str "gzip"⟩] else [])
   ++ (if r.header.any (fun e => eqFold e.1 (str "user-agent")) then [] else [⟨str "user-agent", defaultUserAgent⟩])
+
+/-- `EncodeHeaders`' first pass: `hlSize > param.PeerMaxHeaderListSize` ⇒ `ErrRequestHeaderListSize`
+(the request is not sent). -/
+def clientRefuses (r : Req) (peerLimit : Nat) : Bool :=
+  peerLimit > 0 && headerListSize (reqFields r) > peerLimit
 
 /-- `encodeTrailers`: every value of every key, lower-cased name. -/
 def reqTrailerFields (t : HMap) : List Field :=
